@@ -8,13 +8,13 @@ package main
 import (
 	"encoding/binary"
 	"errors"
-	"sync/atomic"
 	"fmt"
 	"io"
 	"net"
 	"os"
 	"sort"
 	"strings"
+	"sync/atomic"
 	"testing"
 	"testing/synctest"
 	"time"
@@ -119,31 +119,31 @@ func classOf(err error) uint64 {
 // scripted broker
 
 type brokerConn struct {
-	parsed  int      // bytes of conn.written already parsed
+	parsed  int       // bytes of conn.written already parsed
 	queue   []readAns // answers ready for delivery
 	gotConn bool
 }
 
 type scenario struct {
-	r          *rng
-	opts       seqOpts
-	awaitRel   map[uint16]bool // broker side: QoS2 from client awaiting PUBREL
-	inflight2  []uint16        // broker->client QoS2 ids awaiting PUBREC / sent PUBREL
-	nextInID   uint16
-	forceDialFail bool
+	r              *rng
+	opts           seqOpts
+	awaitRel       map[uint16]bool // broker side: QoS2 from client awaiting PUBREL
+	inflight2      []uint16        // broker->client QoS2 ids awaiting PUBREC / sent PUBREL
+	nextInID       uint16
+	forceDialFail  bool
 	sessionPresent bool
-	conns      map[*simConn]*brokerConn
-	budgetIn   int // broker-initiated publishes left
-	hostile    bool
-	inCount    int
-	sent2      map[uint16][]byte
-	dropComp   bool // the broker withholds every PUBCOMP
-	seen1, seen2 int // client publishes seen per level (next identifier in line = space | count)
-	recd2        int // PUBRECs the broker has sent
-	wscript    []writeAns // when non-empty: the fate of the next writes
-	noFaults   bool       // suspend random faults (scripted parts of a history)
-	sscript    []bool     // scripted outcomes of the next Persistence operations
-	inject     [][]byte   // broker packets to deliver next, before anything else
+	conns          map[*simConn]*brokerConn
+	budgetIn       int // broker-initiated publishes left
+	hostile        bool
+	inCount        int
+	sent2          map[uint16][]byte
+	dropComp       bool       // the broker withholds every PUBCOMP
+	seen1, seen2   int        // client publishes seen per level (next identifier in line = space | count)
+	recd2          int        // PUBRECs the broker has sent
+	wscript        []writeAns // when non-empty: the fate of the next writes
+	noFaults       bool       // suspend random faults (scripted parts of a history)
+	sscript        []bool     // scripted outcomes of the next Persistence operations
+	inject         [][]byte   // broker packets to deliver next, before anything else
 }
 
 type seqOpts struct {
@@ -507,11 +507,11 @@ type hist struct {
 	nontriv bool
 	// a write failed outside the read routine: the write semaphore is pending while
 	// Online is still released; lockWrite spins until ReadSlices notices
-	writeFailed bool
-	sawDial     bool
-	wasClosed   bool
-	broken      bool // a call hung or panicked: stop using this client
-	pendingOp   string
+	writeFailed  bool
+	sawDial      bool
+	wasClosed    bool
+	broken       bool // a call hung or panicked: stop using this client
+	pendingOp    string
 	rewrote      map[uint][]byte // Persistence content after an environment rewrite, reported with the next step
 	cid, cfgTerm string
 	initEvs      []event
@@ -1051,7 +1051,11 @@ func (h *hist) quit(rid int) {
 	if h.broken {
 		return
 	}
-	close(h.parked[rid].quit)
+	select {
+	case <-h.parked[rid].quit: // quit before and still waiting
+	default:
+		close(h.parked[rid].quit)
+	}
 	for j := 0; j < 100; j++ {
 		h.settle()
 		if len(h.parked[rid].result) != 0 {
